@@ -17,7 +17,38 @@ A_NONE = 0
 # nk+6 nested fixture
 SITES = ["setUp-before-upcall", "setUp-after-upcall", "body", "tearDown", "inside-cleanup-of-action-0"]
 MISSING = "<missing>"
-INITIAL = {0: MISSING, 1: "orig", 2: None, False: MISSING, True: "orig"}     # initial state of the patched attribute
+# initial state of the patched attribute: 0 absent, 1 "orig" on a plain object, 2 None on a plain object,
+# 3 "orig" stored in a __slots__ object, 4 "orig" behind a read-write property without deleter
+INITIAL = {0: MISSING, 1: "orig", 2: None, 3: "orig", 4: "orig", False: MISSING, True: "orig"}
+
+
+class SlotTarget:
+    __slots__ = ("attr",)
+
+
+class PropTarget:
+    def __init__(self):
+        self._v = None
+
+    def _get(self):
+        return self._v
+
+    def _set(self, v):
+        self._v = v
+
+    attr = property(_get, _set)
+
+
+def make_target(existing):
+    if existing == 3:
+        t = SlotTarget()
+    elif existing == 4:
+        t = PropTarget()
+    else:
+        t = Target()
+    if existing:
+        t.attr = INITIAL[existing]
+    return t
 
 
 class Target:
@@ -156,9 +187,7 @@ def build(su, body, td, acts, existing, log, target):
 
 
 def run_c02(su, body, td, acts, existing):
-    target = Target()
-    if existing:
-        target.attr = INITIAL[existing]
+    target = make_target(existing)
     log = []
     case = build(su, body, td, acts, existing, log, target)
     names1, exc1, _ = L.run_once(case, P.FEXT)
@@ -236,14 +265,14 @@ def _pick(su, body, td, nact, s0, a0, s1, a1, s2, a2, existing, mf, tier_kinds):
         v["a%d" % j] = a
     # the initial state of the attribute only matters when something patches it
     has_patch = any(decode_action(v["a%d" % j], kinds)[0] == "patch" for j in range(v["nact"]))
-    v["existing"] = ch.sel("existing", existing, 3) if has_patch else 1
+    v["existing"] = ch.sel("existing", existing, 5) if has_patch else 1
     return v, kinds
 
 
 def h_order(su: int, body: int, td: int, nact: int, s0: int, a0: int, s1: int, a1: int,
             s2: int, a2: int, existing: int, mf: int, tk: int) -> bool:
     """
-    pre: 0 <= existing < 3
+    pre: 0 <= existing < 5
     pre: 0 <= su < 7 and 0 <= body < 7 and 0 <= td < 7 and 0 <= nact < 4 and 0 <= mf < 5
     pre: 0 <= s0 < 5 and 0 <= s1 < 5 and 0 <= s2 < 5 and 0 <= a0 < 13 and 0 <= a1 < 13 and 0 <= a2 < 13
     pre: 0 <= tk < 2
@@ -302,7 +331,7 @@ def _fid(seed):
         su = rng.choice([0, 0, 0, 1, 4])
         out.append((su, rng.randrange(5) if su == 0 else 0, rng.randrange(5) if su == 0 else 0, nact,
                     rng.randrange(4), rng.randrange(11), rng.randrange(5), rng.randrange(11),
-                    rng.randrange(5), rng.randrange(11), rng.randrange(3), 4, 0))
+                    rng.randrange(5), rng.randrange(11), rng.randrange(5), 4, 0))
     return out
 
 
@@ -337,7 +366,7 @@ HARNESSES = [
                          "each at one of 5 sites (setUp before/after upcall, body, tearDown, inside the cleanup of "
                          "action 0) and of 11 types (cleanup x 5 behaviours, patch of an existing / missing "
                          "attribute, fixture ok / setUp fails / cleanUp fails / nested); at most 2 faults per "
-                         "program; attribute initially absent, present, or present with value None; every program is run twice on the same instance",
+                         "program; attribute initially absent, present, present with value None, stored in a __slots__ object, or behind a read-write property; every program is run twice on the same instance",
                 "thorough": "7-behaviour alphabet (+ expected failure, MultipleExceptions) with 0..2 actions of 13 types and fault budget 2 "
                             "(3 with <= 1 action); 3 actions over the 5-behaviour alphabet with at most 1 fault"},
         rule="one program per path; non-trivial = at least one cleanup/patch/fixture registered",
